@@ -63,8 +63,8 @@ theorem lorentzGamma_pos {c v : ℝ} (hc : 0 < c) (hv : 0 ≤ v) (hvc : v < c) :
   exact one_div_pos.mpr (Real.sqrt_pos.mpr (by linarith))
 
 theorem beta2_eval (ρ : String → ℝ) (hρ : PosEnv ρ) :
-    lorentzBeta2.eval ρ = ρ "x" ^ 2 / ρ "c.clight" ^ 2 := by
-  have hc := hρ "c.clight"
+    lorentzBeta2.eval ρ = ρ "x" ^ 2 / ρ "c.c" ^ 2 := by
+  have hc := hρ "c.c"
   simp only [lorentzBeta2, Mono.eval, Mono.evalAtoms, ofRat_real, rpow_real]
   have e1 : (((-2 : Rat)) : ℝ) = -((2 : ℕ) : ℝ) := by push_cast; ring
   have e2 : (((2 : Rat)) : ℝ) = ((2 : ℕ) : ℝ) := by push_cast; ring
@@ -81,12 +81,12 @@ theorem invGamma2_eval (ρ : String → ℝ) (hρ : PosEnv ρ) :
   push_cast
   field_simp
 
-theorem lorentzC_eval (ρ : String → ℝ) : lorentzC.eval ρ = ρ "c.clight" := by
+theorem lorentzC_eval (ρ : String → ℝ) : lorentzC.eval ρ = ρ "c.c" := by
   simp [lorentzC, Mono.eval, Mono.evalAtoms]
 
 /-- a formula of the γ-shape computes `1/√(1 − x²/c²)` -/
 theorem gammaShape_eval {ρ : String → ℝ} (hρ : PosEnv ρ) (f : Formula) (h : gammaShape f = true) :
-    f.eval ρ = lorentzGamma (ρ "c.clight") (ρ "x") := by
+    f.eval ρ = lorentzGamma (ρ "c.c") (ρ "x") := by
   unfold gammaShape at h
   split at h
   · rename_i a b B
@@ -100,7 +100,7 @@ theorem gammaShape_eval {ρ : String → ℝ} (hρ : PosEnv ρ) (f : Formula) (h
 
 /-- a formula of the velocity shape computes `c √(1 − 1/x²)` -/
 theorem velShape_eval {ρ : String → ℝ} (hρ : PosEnv ρ) (g : Formula) (h : velShape g = true) :
-    g.eval ρ = lorentzVel (ρ "c.clight") (ρ "x") := by
+    g.eval ρ = lorentzVel (ρ "c.c") (ρ "x") := by
   unfold velShape at h
   split at h
   · rename_i b B A
